@@ -31,7 +31,7 @@ type namedReader struct{ io.Reader }
 
 func (namedReader) Name() string { return "sim.bop" }
 
-var junk = []string{"/*", "/* x", "/* x *", "\"abc", "\"a\\", "//", "// c", "/", "-", "-i", "-in", "0x", "1.", "1e", "1.5.", "\x00", "\xff\xfe", "é", "日本",
+var junk = []string{"@x(", "@since(2", "@a(b: (1 << 4)", "@flags", "@opcode(\"ABCD\")", "#[attr(", "@x", "$x[", "%x{", "@range(min: 1, max: 10", "@(", "/*", "/* x", "/* x *", "\"abc", "\"a\\", "//", "// c", "/", "-", "-i", "-in", "0x", "1.", "1e", "1.5.", "\x00", "\xff\xfe", "é", "日本",
 	"#", "@", "$", "`", "'", "<", ">", ">", "<<", ">>", "struct", "message M {", "enum E : ", "enum E {", "[", "[opcode(", "[opcode(\"abcd\")]", "[deprecated(\"x\")]",
 	"[flags]", "map[", "array[", "->", "readonly", "readonly struct", "const", "const int32 x =", "import", "import \"a.bop\"", "union U {", "1 ->", "}", "{", ";", ",",
 	"[flags]\nenum F { A = 1 |; }", "[flags]\nenum F { A = 1; B = A <<; }", "[flags]\nenum F : int64 { A = (1 | 2) &; }", "[flags]\nenum F { A = (1 |); }", "[flags]\nenum F { A = (); }",
